@@ -36,8 +36,10 @@ CLAIMED = {
             'theorems (walk is the pre-order of all stored nodes, exactly once, parents first; filter = walk then select; extract = '
             'n-th match or TypeError; fuel suffices) hold for every table passing the check and every well-formed tree. The full '
             'statement is false of the code for the `comments` attribute (negation proved on a witness; known finding KF-16a) and the '
-            'theorems are _partial by exactly that attribute.',
-            'Trusted: Lean kernel, standard axioms, translator g_children.py (sentinel instantiation of every class), harness. '
+            'theorems are _partial by exactly that attribute. Document order: children_in_print_order (kernel decision over the regenerated '
+            'children() table x the regenerated unparser definitions: every class lists its node-holding attributes in the order its '
+            'definition prints them; the pre-f7ec55b DoWhile order is refuted by the same checker) and a source-order judge on parsed trees.',
+            'Trusted: Lean kernel, standard axioms, translators g_children.py / g_defs.py (sentinel instantiation of every class), harness. '
             'Generators are modelled as lists; Python recursion limit and shared nodes are outside the model.', 'DESIGN.md §6 C16'),
     'C03': ('Lean 4 proof of LR soundness (stack invariant by induction over driver steps) from a kernel-decided validity check of '
             'the regenerated LALR tables against a regenerated certificate; correspondence of the driver and semantic-action '
@@ -235,7 +237,7 @@ _upd('C13',
      'comments_faithful_ordered: on every accepted tree the @comments attributes are a sub-permutation of set_comments of the shifted '
      'tokens, every captured comment is a comment lexeme verbatim at its recorded offset, per-node source order, cross-token '
      'disjointness, strictly increasing offsets (no source comment attached to two nodes) - unconditional (shifted_ordered). Printing '
-     'clauses: comment_carriers_print_comments_partial with the recorded deviations KF-13a..e proved as witnesses. Judge: one comment of '
+     'clauses: comment_carriers_print_comments (every comment-carrying node kind prints its comments first; full since the repair of KF-13c) with the recorded deviations KF-13a/b/d/e proved as witnesses. Judge: one comment of '
      'three kinds at every token gap of hand-written, G1 and G2 programs.',
      None)
 _upd('C20',
